@@ -121,14 +121,23 @@ fn main() {
     if let Some(path) = replay_path {
         std::process::exit(replay(&path));
     }
-    let ctx = Ctx::new("C11", tier, tier.pick(55, 880));
+    // replay files are numbered per run; drop the ones of earlier runs so that none goes stale
+    if let Ok(rd) = std::fs::read_dir(format!("{}/replays/C11", mclib::engine::VERIF_DIR)) {
+        for e in rd.flatten() {
+            if e.path().extension().map(|x| x == "json").unwrap_or(false) {
+                let _ = std::fs::remove_file(e.path());
+            }
+        }
+    }
+    let ctx = Ctx::new("C11", tier, tier.pick(120, 1200));
     let mut rep = Report::new();
     let col = Collector::default();
     let extra = scope::run_all(&ctx, &mut rep, &col);
     col.flush(&mut rep);
     let rule = "case = (value(s), the type(s) they were built at, printer in {Display, Debug}, form in {IDLArgs + parse_idl_args + annotate_types, single IDLValue + parse_idl_value + annotate_type}); \
-one evaluation = one print/print-again/parse/annotate(true)/compare round trip; states = distinct values; every level enumerates its scope completely \
-(levels and exact sizes under coverage.levels / coverage.scopes). Non-trivial = the printed text contains an escape, a digit-group underscore or non-ASCII text, \
+one evaluation = one print/print-again/parse/annotate(true)/compare round trip; states = values enumerated (a handful of two-character texts occur in two families); every level enumerates its scope completely \
+(levels and exact sizes under coverage.levels / coverage.scopes; the thorough float32 level scans all finite bit patterns with the real printer and a replica of the reader, \
+counted under coverage.counters and not as evaluations, and sends every suspect plus one pattern per 65536 through the real round trip). Non-trivial = the printed text contains an escape, a digit-group underscore or non-ASCII text, \
 or the case was built to need quoting / to cross an abbreviation threshold of the pretty printer (depth 10, 10 vector elements). \
 Equality = IDLValue == with floats by bits (labels by id, variant index ignored); Blob(b) and Vec of the same Nat8 are one value.";
     let assumptions = [
